@@ -3,6 +3,7 @@
 (* indexserver does to one index directory.  One operator per operation, written after the   *)
 (* code it stands for; every operator returns the SET of states the operation may lead to    *)
 (* (a singleton except where the code depends on directory order, see Vacuum / Cleanup).     *)
+(* fx = FALSE: the code as it is; fx = TRUE: with the patch proposed in NOTES/SYS.md.        *)
 (*                                                                                            *)
 (*   IndexOp    index.Builder.Finish with Options.ShardMerging (index/builder.go: FindAllShards,*)
 (*              rename of the new shard, SetTombstone on the compound shard that held r)      *)
@@ -121,11 +122,12 @@ Merged(ins) ==
 (* zoekt-merge-index merge: write <dst>.tmp, remove the inputs with their sidecars, rename    *)
 (* the temporary file to dst.  If another compound shard of that name exists it is replaced   *)
 (* by the rename - and ITS sidecar now belongs to the new shard (nothing removes it).         *)
+(* (Proposed patch, fx: remove <dst>.meta before the rename.)                                 *)
 Clash(d, ins, new) == Named(d \ ins, "i", "c", new.nm)
-Install(d, ins, new) ==
+Install(d, ins, new, fx) ==
   LET d1 == d \ ins
       x  == Clash(d, ins, new)
-  IN IF x = {} THEN d1 \cup {new}
+  IN IF x = {} \/ fx THEN (d1 \ x) \cup {new}
      ELSE LET o == CHOOSE f \in x : TRUE
           IN (d1 \ x) \cup {[new EXCEPT !.mf = o.mf, !.mem = IF o.mf THEN o.mem ELSE new.mem]}
 
@@ -135,10 +137,10 @@ Install(d, ins, new) ==
 (* pickCandidates takes them all; fewer than two: nothing happens.  (The second round of the  *)
 (* loop finds at most the new compound shard and stops.)                                      *)
 Candidates(d) == {f \in Idx(d) : Len(f.mem) = 1}
-MergeOp(s) ==
+MergeOp(s, fx) ==
   LET c == Candidates(s.d)
   IN IF Cardinality(c) < 2 THEN {s}
-     ELSE {[s EXCEPT !.d = Install(s.d, c, Merged(c))]}
+     ELSE {[s EXCEPT !.d = Install(s.d, c, Merged(c), fx)]}
 \* the repositories whose new compound shard inherits a foreign sidecar in this merge
 MergeClash(s) ==
   LET c == Candidates(s.d)
@@ -153,22 +155,22 @@ MergeClash(s) ==
 (*   min = 1  size < minSizeBytes: `zoekt-merge-index explode <shard>` = index.Explode: one   *)
 (*            simple shard per live repository (renamed over an existing simple shard of      *)
 (*            that name), the compound shard and its sidecar removed                          *)
-VacuumOne(d, nm, min) ==
+VacuumOne(d, nm, min, fx) ==
   LET cur == Named(d, "i", "c", nm)
   IN IF cur = {} THEN d
      ELSE LET f == CHOOSE x \in cur : TRUE
           IN IF min = 0
              THEN IF ~Readable(f) \/ ~\E p \in Pos(f) : f.mem[p].tb THEN d
-                  ELSE Install(d, {f}, Merged({f}))
+                  ELSE Install(d, {f}, Merged({f}), fx)
              ELSE LET es == Carried(f)
                       out == {Simple("i", es[i].id, 0, es[i].ver, es[i].cv) : i \in DOMAIN es}
                   IN {g \in d \ {f} : ~\E o \in out : g.l = "i" /\ g.k = "s" /\ g.nm = o.nm} \cup out
 
-RECURSIVE VacuumSeq(_, _, _)
-VacuumSeq(d, nms, min) == IF nms = <<>> THEN d ELSE VacuumSeq(VacuumOne(d, Head(nms), min), Tail(nms), min)
+RECURSIVE VacuumSeq(_, _, _, _)
+VacuumSeq(d, nms, min, fx) == IF nms = <<>> THEN d ELSE VacuumSeq(VacuumOne(d, Head(nms), min, fx), Tail(nms), min, fx)
 
 CompoundNames(d) == {f.nm : f \in {g \in Idx(d) : g.k = "c"}}
-VacuumOp(s, min) == {[s EXCEPT !.d = VacuumSeq(s.d, o, min)] : o \in Perms(CompoundNames(s.d))}
+VacuumOp(s, min, fx) == {[s EXCEPT !.d = VacuumSeq(s.d, o, min, fx)] : o \in Perms(CompoundNames(s.d))}
 
 RECURSIVE VacuumClashSeq(_, _)
 VacuumClashSeq(d, nms) ==
@@ -178,7 +180,7 @@ VacuumClashSeq(d, nms) ==
                   ELSE LET f == CHOOSE x \in cur : TRUE
                        IN IF ~Readable(f) \/ ~\E p \in Pos(f) : f.mem[p].tb THEN {}
                           ELSE UNION {IF g.mf THEN Members(g) ELSE {} : g \in Clash(d, {f}, Merged({f}))}
-       IN hit \cup VacuumClashSeq(VacuumOne(d, Head(nms), 0), Tail(nms))
+       IN hit \cup VacuumClashSeq(VacuumOne(d, Head(nms), 0, FALSE), Tail(nms))
 VacuumClash(s, min) == IF min # 0 THEN {} ELSE UNION {VacuumClashSeq(s.d, o) : o \in Perms(CompoundNames(s.d))}
 
 -----------------------------------------------------------------------------
@@ -251,10 +253,10 @@ TickOp(s)        == {[s EXCEPT !.clk = @ + 25]}
 CrashOp(s)       == {[s EXCEPT !.tmp = @ + 1]}     \* a killed indexer leaves its temporary shard
 
 \* op = [op, r, v, min]
-Apply(s, o) ==
+Apply(s, o, fx) ==
   CASE o.op = "index"    -> IndexOp(s, o.r, o.v)
-    [] o.op = "merge"    -> MergeOp(s)
-    [] o.op = "vacuum"   -> VacuumOp(s, o.min)
+    [] o.op = "merge"    -> MergeOp(s, fx)
+    [] o.op = "vacuum"   -> VacuumOp(s, o.min, fx)
     [] o.op = "cleanup"  -> CleanupOp(s)
     [] o.op = "assign"   -> AssignOp(s, o.r)
     [] o.op = "unassign" -> UnassignOp(s, o.r)
@@ -263,9 +265,10 @@ Apply(s, o) ==
     [] OTHER             -> {s}
 
 \* repositories whose freshly written compound shard inherits the sidecar of the file it replaces
-ClashRepos(s, o) == CASE o.op = "merge" -> MergeClash(s)
-                      [] o.op = "vacuum" -> VacuumClash(s, o.min)
-                      [] OTHER -> {}
+ClashRepos(s, o, fx) == IF fx THEN {}
+                        ELSE CASE o.op = "merge" -> MergeClash(s)
+                               [] o.op = "vacuum" -> VacuumClash(s, o.min)
+                               [] OTHER -> {}
 
 -----------------------------------------------------------------------------
 (* The statement, clause by clause, over one step (pre, operation, post) and the views a     *)
@@ -285,8 +288,8 @@ Where(d, r) == IF Shards(Trash(d), r) # {} THEN "trashed"
                ELSE IF \E f \in Idx(d) : TombIn(f, r) THEN "tombstoned"
                ELSE "gone"
 
-Viol(pre, o, post, vpre, vpost, Repos) ==
-  LET clash == ClashRepos(pre, o)
+Viol(pre, o, post, vpre, vpost, Repos, fx) ==
+  LET clash == ClashRepos(pre, o, fx)
       own(r) == o.op = "index" /\ o.r = r
       \* (1) a live repository is visible in at most one loadable shard
       dup  == {[c |-> "duplicate", r |-> r, cause |-> IF r \in clash THEN "inherited-sidecar" ELSE "two-shards"]
@@ -316,7 +319,8 @@ Viol(pre, o, post, vpre, vpost, Repos) ==
 (*                     order) and keeps that file's .meta: its tombstones and old metadata    *)
 (*                     now describe the new shard                                             *)
 (*  revived-old-copy   cleanup revives (UnsetTombstone) an old tombstoned copy of a           *)
-(*                     repository whose newer copy was trashed and purged meanwhile           *)
-Known(v) == v.cause \in {"inherited-sidecar", "revived-old-copy"}
+(*                     repository whose newer copy was trashed and purged meanwhile (a        *)
+(*                     tombstone does not say whether an index run or cleanup set it)         *)
+Known(v, fx) == v.cause = "revived-old-copy" \/ (~fx /\ v.cause = "inherited-sidecar")
 
 =============================================================================
